@@ -99,7 +99,15 @@ func rV2T(v value) rtype {
 
 // Given a reflect.Value, returns the underlying interpreter value.
 func rV2V(v value) value {
-	return v.(structure)[1]
+	s := v.(structure)
+	// an addressable Value reads through its cell, so that it sees a Set made
+	// through it (or through another Value of the same variable) after it was made
+	if len(s) >= 3 {
+		if a, _ := s[2].(*value); a != nil {
+			return *a
+		}
+	}
+	return s[1]
 }
 
 // makeReflectType boxes up an rtype in a reflect.Type interface.
@@ -519,8 +527,84 @@ func ext۰reflect۰Value۰IsValid(fr *frame, args []value) value {
 }
 
 func ext۰reflect۰Value۰Set(fr *frame, args []value) value {
-	// TODO(adonovan): implement.
+	// Signature: func (v reflect.Value, x reflect.Value)
+	a := rV2Addr(args[0])
+	if a == nil || rV2RO(args[0]) {
+		panic("reflect.Value.Set using unaddressable value")
+	}
+	store(rV2T(args[0]).t, a, rV2V(args[1]))
 	return nil
+}
+
+func ext۰reflect۰Value۰SetBool(fr *frame, args []value) value {
+	a := rV2Addr(args[0])
+	if a == nil || rV2RO(args[0]) {
+		panic("reflect.Value.SetBool using unaddressable value")
+	}
+	*a = args[1]
+	return nil
+}
+
+// structFieldByNameFunc: the index of the single field whose name satisfies match (-1: none or several)
+func structFieldByNameFunc(fr *frame, st *types.Struct, match value) int {
+	found := -1
+	for i := 0; i < st.NumFields(); i++ {
+		if fr.i.run.concBool(call(fr.i, fr, token.NoPos, match, []value{st.Field(i).Name()}), "reflect-field-match") {
+			if found >= 0 {
+				return -1
+			}
+			found = i
+		}
+	}
+	return found
+}
+
+func ext۰reflect۰Value۰FieldByNameFunc(fr *frame, args []value) value {
+	// Signature: func (v reflect.Value, match func(string) bool) reflect.Value
+	st, ok := rV2T(args[0]).t.Underlying().(*types.Struct)
+	if !ok {
+		panic("reflect.Value.FieldByNameFunc of non-struct")
+	}
+	i := structFieldByNameFunc(fr, st, args[1])
+	if i < 0 {
+		return structure{rtype{nil}, nil, (*value)(nil), false} // the zero Value
+	}
+	return ext۰reflect۰Value۰Field(fr, []value{args[0], i})
+}
+
+func ext۰reflect۰rtype۰FieldByNameFunc(fr *frame, args []value) value {
+	// Signature: func (t reflect.rtype, match func(string) bool) (reflect.StructField, bool)
+	st, ok := args[0].(rtype).t.Underlying().(*types.Struct)
+	if !ok {
+		panic("reflect.Type.FieldByNameFunc of non-struct")
+	}
+	i := structFieldByNameFunc(fr, st, args[1])
+	if i < 0 {
+		return tuple{structure{"", "", makeReflectType(rtype{nil}), "", 0, []value{}, false}, false}
+	}
+	return tuple{ext۰reflect۰rtype۰Field(fr, []value{args[0], i}), true}
+}
+
+func ext۰reflect۰rtype۰Name(fr *frame, args []value) value {
+	// Signature: func (t reflect.rtype) string
+	switch t := types.Unalias(args[0].(rtype).t).(type) {
+	case *types.Named:
+		return t.Obj().Name()
+	case *types.Basic:
+		return t.Name()
+	}
+	return ""
+}
+
+func ext۰reflect۰Append(fr *frame, args []value) value {
+	// Signature: func (s reflect.Value, x ...reflect.Value) reflect.Value
+	old, _ := rV2V(args[0]).([]value)
+	out := append([]value(nil), old...)
+	for _, x := range args[1].([]value) {
+		v := rV2V(x)
+		out = append(out, load(rV2T(x).t, &v))
+	}
+	return makeReflectValue(rV2T(args[0]).t, out)
 }
 
 func ext۰reflect۰valueInterface(args []value) value {
@@ -591,6 +675,8 @@ func initReflect(i *interpreter) {
 		"In":        newMethod(i.reflectPackage, rtypeType, "In"),
 		"Kind":      newMethod(i.reflectPackage, rtypeType, "Kind"),
 		"NumField":  newMethod(i.reflectPackage, rtypeType, "NumField"),
+		"Name":      newMethod(i.reflectPackage, rtypeType, "Name"),
+		"FieldByNameFunc": newMethod(i.reflectPackage, rtypeType, "FieldByNameFunc"),
 		"NumIn":     newMethod(i.reflectPackage, rtypeType, "NumIn"),
 		"NumMethod": newMethod(i.reflectPackage, rtypeType, "NumMethod"),
 		"NumOut":    newMethod(i.reflectPackage, rtypeType, "NumOut"),
